@@ -121,7 +121,7 @@ def gen(run):
         if "STRING<<>>" in d["h"]:
             feats.append("user-text-placeholder")
         text = K.program_for([d["with"], line])
-        cases.append({"text": text, "size": d["size"], "procname": "prog", "origin": f"hostile:{pname}:{d['h']}", "features": feats})
+        cases.append({"text": text, "size": d["size"], "procname": "prog", "origin": f"hostile:{pname}:{d['h']}", "features": feats, "content": d["h"]})
     return cases
 
 
@@ -164,6 +164,9 @@ def judge(c):
         a, b = body.rstrip("\n").split("\n"), r0.text.rstrip("\n").split("\n")
         k = next((i for i in range(min(len(a), len(b))) if a[i] != b[i]), min(len(a), len(b)))
         v.append(("user-procedure-altered", f"line {k}: bundle has {a[k:k+1]} but plain output has {b[k:k+1]}"))
+    # the user's literal / DATA item / remark text is in the user's procedure, character for character
+    if c.get("content") and c["content"] not in body:
+        v.append(("user-text-changed", f"the source text {c['content']!r} does not appear verbatim in the user's procedure"))
     # which RUNs does the user procedure make? parse the *plain* output (independent of the bundle text)
     try:
         uprocs = S.parse(r0.text)
@@ -247,12 +250,12 @@ def run(run):
                 feats = set(c["features"])
                 if c["procname"] in library()["graph"]:
                     feats.add("procname-shadows-library")
-                run.violation(sym, feats, {k: c[k] for k in ("text", "size", "procname", "origin")}, f"{c['origin']} size={c['size']} procname={c['procname']}: {detail}")
+                run.violation(sym, feats, {k: c.get(k) for k in ("text", "size", "procname", "origin", "content")}, f"{c['origin']} size={c['size']} procname={c['procname']}: {detail}")
     run.distinct_n = len(keys)
     run.count("library_procedures", len(library()["graph"]))
     run.count("library_placeholder_sites", library()["placeholders"])
 
 
 def replay(case):
-    v, out = judge({"text": case["text"], "size": case["size"], "procname": case["procname"], "features": []})
+    v, out = judge({"text": case["text"], "size": case["size"], "procname": case["procname"], "features": [], "content": case.get("content")})
     return {"violations": [list(x) for x in v]}
